@@ -71,7 +71,10 @@ where
             }
         };
 
-        headers.append(header, HeaderValue::from_bytes(value).map_err(http::Error::from)?);
+        // `append` panics once the map cannot grow any further (reachable with a large `max_headers`).
+        headers
+            .try_append(header, HeaderValue::from_bytes(value).map_err(http::Error::from)?)
+            .map_err(http::Error::from)?;
     }
 
     Ok((status, headers))
